@@ -22,6 +22,7 @@ from liquid2.builtin import parse_keyword_arguments
 from liquid2.builtin import parse_primitive
 from liquid2.builtin import parse_string_or_identifier
 from liquid2.exceptions import LiquidSyntaxError
+from liquid2.exceptions import LiquidTypeError
 from liquid2.exceptions import TemplateNotFoundError
 
 from .for_tag import ForLoop
@@ -107,13 +108,13 @@ class RenderNode(Node):
             key = self.alias or template.name.split(".")[0]
 
             if self.loop and isinstance(val, Sequence) and not isinstance(val, str):
-                context.raise_for_loop_limit(len(val))
+                context.raise_for_loop_limit(_length(val, token=self.token))
                 # Loops inside the partial are nested in this one.
-                ctx.loop_iteration_carry *= len(val)
+                ctx.loop_iteration_carry *= _length(val, token=self.token)
                 forloop = ForLoop(
                     name=key,
                     it=iter(val),
-                    length=len(val),
+                    length=_length(val, token=self.token),
                     parentloop=context.env.undefined("parentloop", token=self.token),
                 )
 
@@ -171,13 +172,13 @@ class RenderNode(Node):
             key = self.alias or template.name.split(".")[0]
 
             if self.loop and isinstance(val, Sequence) and not isinstance(val, str):
-                context.raise_for_loop_limit(len(val))
+                context.raise_for_loop_limit(_length(val, token=self.token))
                 # Loops inside the partial are nested in this one.
-                ctx.loop_iteration_carry *= len(val)
+                ctx.loop_iteration_carry *= _length(val, token=self.token)
                 forloop = ForLoop(
                     name=key,
                     it=iter(val),
-                    length=len(val),
+                    length=_length(val, token=self.token),
                     parentloop=context.env.undefined("parentloop", token=self.token),
                 )
 
@@ -319,3 +320,11 @@ class RenderTag(Tag):
         args = parse_keyword_arguments(self.env, tokens)
         tokens.expect_eos()
         return self.node_class(token, name, loop=loop, var=var, alias=alias, args=args)
+
+
+def _length(val: Sequence[object], *, token: TokenT) -> int:
+    try:
+        return len(val)
+    except OverflowError as err:
+        # len() is limited to sys.maxsize
+        raise LiquidTypeError("sequence is too large to loop over", token=token) from err
